@@ -70,12 +70,12 @@ void printNineDigits(binlog::detail::OstreamBuffer& out, int i)
 void printTimeZoneOffset(binlog::detail::OstreamBuffer& out, int seconds)
 {
   const char sign = (seconds >= 0) ? '+' : '-';
-  const int psecs = std::abs(seconds);
-  const int hours = psecs / 3600;
-  const int mins  = (psecs / 60) - 60 * hours;
+  const unsigned psecs = (seconds >= 0) ? unsigned(seconds) : 0U - unsigned(seconds); // abs(INT_MIN) is undefined
+  const unsigned hours = psecs / 3600;
+  const unsigned mins  = (psecs / 60) - 60 * hours;
   out.put(sign);
-  printTwoDigits(out, hours < 100 ? hours : 0);
-  printTwoDigits(out, mins < 100 ? mins : 0);
+  printTwoDigits(out, hours < 100 ? int(hours) : 0);
+  printTwoDigits(out, mins < 100 ? int(mins) : 0);
 }
 
 } // namespace
@@ -331,7 +331,7 @@ void PrettyPrinter::printTimeField(detail::OstreamBuffer& out, char spec, Broken
     out << bdt.tm_year + 1900;
     break;
   case 'y':
-    printTwoDigits(out, bdt.tm_year % 100);
+    printTwoDigits(out, ((bdt.tm_year % 100) + 100) % 100); // tm_year is negative before 1900
     break;
   case 'm':
     printTwoDigits(out, bdt.tm_mon + 1);
